@@ -8,6 +8,9 @@ Chars == CASE FAMILY = "names"    -> {"a", "A", "_", "1", "+", ".", " ", "(", ",
            [] FAMILY = "numbers"  -> {"0", "1", ".", "e", "+", "'", "x", "b", "a", " ", "\\"}
            [] FAMILY = "quotes"   -> {"'", "a", "\\", "n", "x", "1", "\n", " ", "\"", "7"}
            [] FAMILY = "comments" -> {"/", "*", "%", "\n", "a", " ", ".", "("}
+           \* characters outside ASCII: a letter of each kind, a digit of another script (no digit for the token syntax), a space, a
+           \* mathematical operator (graphic), a currency sign (no class at all)
+           [] FAMILY = "unicode"  -> {"a", "1", "é", "Ω", "日", "٣", " ", "∀", "€", "'", " ", "."}
 VARIABLES txt, out, done
 Init == txt \in UNION { [1..k -> Chars] : k \in 0..NMAX } /\ out = <<>> /\ done = FALSE
 Next == ~done /\ done' = TRUE /\ out' = Lex(txt) /\ UNCHANGED txt
